@@ -32,6 +32,9 @@ public:
                            std::fstream::out);
         connected[index] = true;
       }
+      // A failed access (for example a read on a slot connected for writing)
+      // must not disable the slot for later accesses.
+      fileIO[index].clear();
       fileIO[index].put(value);
     }
   }
@@ -47,6 +50,7 @@ public:
                            std::fstream::in);
         connected[index] = true;
       }
+      fileIO[index].clear();
       return fileIO[index].get();
     }
   }
